@@ -33,4 +33,36 @@ def fullParseLine (toks : List String) : String :=
     | .ok ts => "ok " ++ " ".intercalate (encToks ts)
   | _ => "bad-request"
 
+def encRefs (rs : List (List Char × List Char × List Char)) : String :=
+  if rs.isEmpty then "~" else ",".intercalate (rs.map (fun r => encChars r.1 ++ "=" ++ encChars r.2.1 ++ "=" ++ encChars r.2.2))
+
+/-- `fullparser <blockbits><reference><inline_definitions> …` — the arguments of `fullparse`, with two more block bits; the response
+    carries the env entries after the tokens: `ok <tokens…> #refs <label=href=title,…> #dups <…>` -/
+def fullParseRLine (toks : List String) : String :=
+  match toks with
+  | [bits, mn, rs, fj, inl, tj, ents, refm, ntxt, hasRefs, storeLabels, refHref, refTitle, normRef, src] =>
+    let b := bits.toList.map (· == '1')
+    let rc : RCfg := { code := b.getD 0 false, fence := b.getD 1 false, hr := b.getD 2 false, heading := b.getD 3 false,
+                       htmlBlock := b.getD 4 false, lheading := b.getD 5 false, html := b.getD 6 false,
+                       reference := b.getD 7 false, inlineDefs := b.getD 8 false }
+    let ext := mkExt rc.html (decPairs ents) (decPairs refm) (decPairs ntxt)
+    let hrefs := decPairs refHref
+    let titles := decPairs refTitle
+    let nrefs := decPairs normRef
+    let lx : LExt := { hasRefs := decBool hasRefs, storeLabels := decBool storeLabels
+                       normRef := fun l => (lookupC nrefs l).getD missMark
+                       refs := fun l => match lookupC hrefs l with
+                         | some h => some (h, (lookupC titles l).getD [])
+                         | none => none }
+    let has := fun (c : Char) => rs.toList.contains c
+    let ic : ICfg := { text := has 't', newline := has 'n', escape := has 'e', backticks := has 'b', strike := has 's', emphasis := has 'm',
+                       link := has 'l', image := has 'i', autolink := has 'a', htmlInline := has 'h', entity := has 'y',
+                       fragJoin := decBool fj, inlineOn := decBool inl, textJoinOn := decBool tj }
+    let m := mn.toInt!
+    let cs := decChars src
+    match fullParseR drvCls ext lx rc ic Gen.pyWhitespace m ((m.toNat + 2) * (cs.length / 4 + 2)) cs with
+    | .error e => "e:" ++ e.tag
+    | .ok (ts, refs, dups) => "ok " ++ " ".intercalate (encToks ts) ++ " #refs " ++ encRefs refs ++ " #dups " ++ encRefs dups
+  | _ => "bad-request"
+
 end MdIt.Drv
